@@ -57,8 +57,8 @@ func safeEq(f func() error) (eq bool, panicked any) {
 }
 
 func run(r *ev.Run, cfg props.Cfg) {
-	nBase := cfg.Pick(1000, 20000)
-	nSig := cfg.Pick(2000, 40000)
+	nBase := cfg.Pick(8000, 120000)
+	nSig := cfg.Pick(8000, 120000)
 	var wg sync.WaitGroup
 	per := (nBase + cfg.Workers - 1) / cfg.Workers
 	perS := (nSig + cfg.Workers - 1) / cfg.Workers
